@@ -14,6 +14,8 @@ use super::Router;
 pub enum Event {
     /// worker thread started, server not touched yet
     Started(RequestId),
+    /// the worker holds its handle on the server (shared access) and is about to compute
+    Acquired(RequestId),
     /// result computed, response not sent yet
     Computed(RequestId),
     /// worker finished and dropped its `Router` clone; `true` if it is unwinding from a panic
